@@ -339,7 +339,11 @@ func (m *vfC13Model) Apply(o vfC13Op, seq uint64, rev string) {
 	case "role":
 		r := m.Roles[o.ID]
 		if r == nil || !r.Exists || r.Deleted {
-			r = &vfC13Princ{Exists: true, Created: seq, Chans: map[string]uint64{}, Roles: map[string]uint64{}}
+			had := map[string]uint64{}
+			if r != nil {
+				had = vfC13CopyU64(r.Had) // what earlier incarnations conferred stays relevant to revocation
+			}
+			r = &vfC13Princ{Exists: true, Created: seq, Chans: map[string]uint64{}, Roles: map[string]uint64{}, Had: had}
 			m.Roles[o.ID] = r
 		}
 		if o.SetChans {
